@@ -441,6 +441,10 @@ def check_C08(tier):
     ds = measure()
     cases = corpus_cases(ds) + gen.gen_scenario_cases(core.seed() * 31 + 8, budget(tier, 120, 3000), ds, [gen.scen_dups, gen.scen_nested_failure])
     cases += random_cases(tier, 500, 30000, 8, prof=RICH_ARGS, dirsize=ds, p_fail=0.1)
+    # "the same path": also when the second call spells it differently (relative, '..', '.', '//', bytes, PathLike)
+    for i, c in enumerate(cases):
+        if not str(c.get('seed', '')).startswith('corpus:') and i % 3 == 0:
+            c['spell'] = core.seed() * 7919 + i
     explore('C08', tier, rep, cases)
     # the thread clause: two threads issuing the same key, every schedule up to the preemption bound
     explore_threads('C08', tier, rep, ['dup_file', 'dup_sub', 'dup_sub_cached', 'dup_sub_json_equal', 'dup_sub_json_equal_cached'],
@@ -604,8 +608,16 @@ def c15_cases(tier, ds):
     for i in range(budget(tier, 120, 4000)):
         rng = random.Random(core.seed() * 91 + 15 * 1000003 + i)
         c = gen.gen_case(rng.randrange(10 ** 9), dirsize=ds, p_fail=0.0, p_clean=0.0, min_builds=1, max_builds=2)
-        how = rng.choice(['corrupt', 'corrupt', 'corrupt', 'todir', 'name'])
-        if how == 'corrupt':
+        how = rng.choice(['corrupt', 'corrupt', 'corrupt', 'todir', 'name', 'rot'])
+        if how == 'rot':
+            # the cache file is read once without being replaced (a call refused for its build name), then rots in
+            # place - same size, same modification time - and is used again in the same process
+            c['steps'].append(['build', 'other', gen.enc_simple({}), 0, gen.enc_simple(0)])
+            if rng.random() < 0.5:
+                c['steps'].append(['clean', 'other'])
+            c['steps'].append(['mut', 'corrupt', 'cache.gz', 'bitflipkeep:%d' % rng.randrange(0, 32), None])
+            name = 'n'
+        elif how == 'corrupt':
             cls = rng.choice(classes)
             if cls.startswith('bitflip') and tier == 'thorough':
                 cls = 'bitflip:%d' % rng.randrange(0, 4000)
@@ -694,6 +706,13 @@ def wrong_argument_calls(rep):
                 ('build_versioned versions list', lambda: FB.build_versioned(cache, 'n', [], good)),
                 ('build_versioned versions non-json', lambda: FB.build_versioned(cache, 'n', {'f': {1, 2}}, good)),
                 ('build_versioned versions None', lambda: FB.build_versioned(cache, 'n', None, good)),
+                # version maps that are not JSON because of a KEY (at the top or nested), with harmless values
+                ('build_versioned versions bytes key', lambda: FB.build_versioned(cache, 'n', {b'f': 'v'}, good)),
+                ('build_versioned versions tuple key', lambda: FB.build_versioned(cache, 'n', {('f',): 'v', 'g': 'w'}, good)),
+                ('build_versioned versions object key', lambda: FB.build_versioned(cache, 'n', {object(): 'v'}, good)),
+                ('build_versioned versions nested bytes key', lambda: FB.build_versioned(cache, 'n', {'f': {b'k': 'v'}}, good)),
+                ('build_versioned versions nested tuple key in list', lambda: FB.build_versioned(cache, 'n', {'f': [{(1, 2): 'v'}]}, good)),
+                ('build_versioned versions non-json value in flat map', lambda: FB.build_versioned(cache, 'n', {'f': 'v', 'g': b'w'}, good)),
                 ('build_versioned name bytes', lambda: FB.build_versioned(cache, b'n', {}, good)),
                 ('clean name int', lambda: FB.clean(cache, 5)),
                 ('clean cache path int', lambda: FB.clean(5, 'n')),
